@@ -109,6 +109,20 @@ impl Socket {
             protocol_identity,
         } = config;
 
+        #[cfg(feature = "verif-hooks")]
+        if crate::verif::net::is_installed() {
+            return Self::verif_new(
+                executor,
+                filter_config,
+                listen_config,
+                ban_duration,
+                expected_responses,
+                local_node_id,
+                protocol_identity,
+            )
+            .await;
+        }
+
         // For recv socket, intentionally forgetting which socket is the ipv4 and which is the ipv6 one.
         let (first_recv, second_recv, send_ipv4, send_ipv6): (
             Arc<UdpSocket>,
@@ -162,12 +176,65 @@ impl Socket {
             protocol_identity,
             expected_responses,
             ban_duration,
+            #[cfg(feature = "verif-hooks")]
+            verif_rx: None,
         };
 
         let (recv, recv_exit) = RecvHandler::spawn(recv_config);
         // spawn the sender handler
         let (send, sender_exit) = SendHandler::spawn(executor, send_ipv4, send_ipv6);
 
+        Ok(Socket {
+            send,
+            recv,
+            sender_exit: Some(sender_exit),
+            recv_exit: Some(recv_exit),
+        })
+    }
+}
+
+#[cfg(feature = "verif-hooks")]
+impl Socket {
+    /// Virtual-network variant of [`Socket::new`]: the same receive and send tasks, but their I/O
+    /// loops exchange raw datagrams with the harness (see `crate::verif::net`). A placeholder
+    /// socket fills the `UdpSocket` fields; it is never read from or written to.
+    #[allow(clippy::too_many_arguments)]
+    async fn verif_new(
+        executor: Box<dyn Executor + Send + Sync>,
+        filter_config: FilterConfig,
+        listen_config: ListenConfig,
+        ban_duration: Option<Duration>,
+        expected_responses: Arc<RwLock<HashMap<SocketAddr, usize>>>,
+        local_node_id: enr::NodeId,
+        protocol_identity: ProtocolIdentity,
+    ) -> Result<Self, Error> {
+        let listen: Vec<SocketAddr> = match &listen_config {
+            ListenConfig::Ipv4 { ip, port } => vec![(*ip, *port).into()],
+            ListenConfig::Ipv6 { ip, port } => vec![(*ip, *port).into()],
+            ListenConfig::DualStack {
+                ipv4,
+                ipv4_port,
+                ipv6,
+                ipv6_port,
+            } => vec![(*ipv4, *ipv4_port).into(), (*ipv6, *ipv6_port).into()],
+            ListenConfig::FromSockets { .. } => Vec::new(),
+        };
+        let placeholder = Arc::new(UdpSocket::bind("0.0.0.0:0").await?);
+        let (verif_rx, verif_tx) =
+            crate::verif::net::register(local_node_id, listen, expected_responses.clone());
+        let recv_config = RecvHandlerConfig {
+            filter_config,
+            executor: executor.clone(),
+            recv: placeholder,
+            second_recv: None,
+            local_node_id,
+            protocol_identity,
+            expected_responses,
+            ban_duration,
+            verif_rx: Some(verif_rx),
+        };
+        let (recv, recv_exit) = RecvHandler::spawn(recv_config);
+        let (send, sender_exit) = SendHandler::verif_spawn(executor, verif_tx);
         Ok(Socket {
             send,
             recv,
